@@ -220,3 +220,16 @@ reg("C08", "c08",
     "Ideal cryptography in the model; ProtonMail/go-crypto trusted. Commits are single-commit bugs written by hand at the chosen "
     "logical time (git-bug's own write path cannot choose a logical time below its clock).",
     "DESIGN.md section 4, C08")
+
+reg("C09", "c09",
+    "TLA+ specs Ident.tla / IdentFields.tla model-checked and enumerated by TLC; schedules run on real repositories and validated "
+    "by TLC as traces; field-class vectors on the editing API and as remote data",
+    "TLC explores every interleaving of new identity / mutate / push / fetch / merge on 2-3 replicas within 5 versions and checks "
+    "the action properties (every local chain only ever extends; the id never changes) and the fast-forward table (updated iff the "
+    "remote strictly extends the local, nothing iff equal or behind, invalid and untouched iff diverged). A catalogue of all "
+    "(prefix, local suffix, remote suffix) triples up to (2,2,2), with and without other identities in the same pull, and "
+    "TLC-simulated schedules are run on real repositories; TLC accepts a trace only if every step (including that MergeAll "
+    "reports on every remote identity, the status, the identity handed back and the resulting chains) is the specification's. "
+    "IdentFields enumerates 648 field-class combinations and the clock classes (growing, equal, decreasing, dropped); each is "
+    "tried through NewIdentityFull + Commit and as a forged remote chain and must be accepted exactly when valid.",
+    "Keys are covered by C08. go-git, TLC and the projection code are trusted.", "DESIGN.md section 4, C09")
